@@ -265,8 +265,14 @@ impl<'a> StateMachine<'a> {
     // TODO: I'm not sure the above description is accurate; I think this
     // function needs a more accurate name.
     pub fn should_handle(&self) -> bool {
-        let style = self.config.get_style(&self.state);
-        !(style.is_raw && style.decoration_style == DecorationStyle::NoDecoration)
+        // States without a style of their own (e.g. a plain-diff header line met while in a
+        // submodule or merge-conflict state) are handled.
+        match self.config.try_get_style(&self.state) {
+            Some(style) => {
+                !(style.is_raw && style.decoration_style == DecorationStyle::NoDecoration)
+            }
+            None => true,
+        }
     }
 }
 
